@@ -27,8 +27,12 @@ def run(ctx) -> None:
     ctx.guard("C18.mode", optimize)
     from .common import concrete_devices
 
+    from . import c06
+
     for dev in concrete_devices(ctx):
         ctx.guard("C18.wiring", wiring, dev)
+        # ... and the groups and rows are pipetted in the order in which partition_by_column hands them out
+        ctx.reuse("C18.wiring", c06.iteration_space, dev)
     from .common import memo_rule, none_concat_rule
 
     ctx.guard("C18.mode", memo_rule, "C18.no-cache", ("worklists/utils.py",))
